@@ -201,6 +201,15 @@ def run(rep, tier, seed):
         c["id"] = c["id"].replace("c01", "c06r")
         # `forward-char` & co are documented to insert the suggestion when history-autosuggest is on
         c["inputrc"] = c["inputrc"].replace("set history-autosuggest on\n", "")
+    # history walks and searches (incremental, non-incremental with its minibuffer, repeated): the buffer is replaced as a
+    # whole by these commands and the cursor must end up inside it (on a character in Vi command mode)
+    import p_c09
+    hcases = p_c09.search_cases(tier, rng, tag="c06h")
+    for c in hcases:
+        c.pop("histsnap", None)
+    if tier == "quick":
+        hcases = hcases[:60]
+    cases += hcases
     log("C06: %d experiments in %d cases, + %d random-composition cases" % (len(exps), len(cases), len(rcases)))
     rep.extra["exhaustive_up_to"] = {"buffer_length": maxlen, "commands": len(names), "curated_buffers": len(CURATED)}
 
@@ -214,7 +223,8 @@ def run(rep, tier, seed):
     run_session_property(rep, cases + rcases, project, "EditorTrace", "EditorTrace_C06.cfg", "c06-run", nontrivial=nontrivial)
     rep.rule = ("one-command experiments: every Movement/Copy command name (%d) x numeric argument x every cursor of every buffer of length <= %d "
                 "over the class alphabet {word, punct, blank, quote, bracket, wide, newline} + %d curated shapes, in emacs, vi-insert, vi-command, "
-                "visual and operator-pending (quick: seeded sample); plus random compositions of all commands; non-trivial = distinct "
+                "visual and operator-pending (quick: seeded sample); plus random compositions of all commands, and history walk / search sessions "
+                "(incremental, non-incremental, repeated); non-trivial = distinct "
                 "(command, keymaps, buffer length, resulting cursor)" % (len(names), maxlen, len(CURATED)))
     rep.exhaustive = tier == "thorough"
     rep.explanation = ("EditorTrace evaluates WaitInvariant at every wait, NoEdit for every Movement/Copy command between its begin and end "
